@@ -191,7 +191,9 @@ class Runner:
             host = decimal.Context(
                 prec=rng.choice([5, 9, 12]),
                 rounding=rng.choice([decimal.ROUND_DOWN, decimal.ROUND_UP,
-                                     decimal.ROUND_HALF_EVEN]))
+                                     decimal.ROUND_HALF_EVEN]),
+                traps=rng.choice([None, None, [decimal.Inexact],
+                                  [decimal.Rounded]]))
             got = self.call(fname, args, host)
             self.ctx.event('host_decimal_context_calls')
             self.judge(fname, args, want, got, kind,
